@@ -17,7 +17,8 @@ claimed = {
         "(R1.1), constructors accept only quantities inside the specification's limits with payload length tied to the quantity "
         "(R1.2), frames fit 260/256 bytes (R1.3), coil j is bit j mod 8 of byte j div 8 for every j (R1.4), no narrow arithmetic "
         "wraps (R1.W). FC16/FC23 constructor limits of 124 are known findings."
-        " R1.5: protocol id bytes are the constant 0 for any struct contents."),
+        " R1.5: protocol id bytes are the constant 0 for any struct contents."
+        " R1.5 also: transaction id bytes are the struct's own for any contents."),
   note=ENGINE_NOTE + " The specification table in checker/spec.go is the oracle; the random transaction id is unconstrained.",
   ref="DESIGN.md §3 C01"),
  "C02": dict(
@@ -25,7 +26,8 @@ claimed = {
   text=("For every well-formed response frame of the ten functions in both framings: the parser's result, fed to Bytes(), "
         "reproduces the frame segment by segment (R2.1); byte-counted responses are accepted only with consistent length (R2.2); "
         "exception frames are recognised exactly and carry unit/function/code (R2.3); dispatchers agree with parsers (R2.4)."
-        " Also: installed recognisers (R2.3), recogniser sees everything received (R2.5), acceptance of every well-formed reply (R2.6)."),
+        " Also: installed recognisers (R2.3), recogniser sees everything received (R2.5), acceptance of every well-formed reply (R2.6)."
+        " Also R2.7 (dispatchers never return nil,nil) and the framing-mix rule on constructors."),
   note=ENGINE_NOTE + " Premises are printed in evidence (protocol id 0, MBAP length = len-6, function byte = case constant, legal FC5 value, fixed-size replies have their length, FC17 within one ADU).",
   ref="DESIGN.md §3 C02"),
  "C03": dict(
@@ -34,7 +36,8 @@ claimed = {
         "(R3.1), that the CRC-verifying entry points reach the inner parser only under trailer == CRC16(data[0:len-2]) and reject "
         "nothing else (R3.2), and that CRC16 reads every input byte (R3.0, a necessary condition of clause 1). That CRC16's "
         "arithmetic equals the Modbus polynomial for every byte string is NOT decided (needs execution or a proof of the loop)."
-        " Also: CRC range for arbitrary struct contents (R3.1), RTU clients install CRC-verifying functions (R3.3)."),
+        " Also: CRC range for arbitrary struct contents (R3.1), RTU clients install CRC-verifying functions (R3.3)."
+        " R3.4: checksum constants 0xFFFF / 0xA001 or an equal 256-entry table (constants only)."),
   note=ENGINE_NOTE + " CRC16 is an uninterpreted function in R3.1/R3.2.",
   ref="DESIGN.md §3 C03"),
  "C04": dict(
@@ -44,7 +47,8 @@ claimed = {
         "impossible for in-window accesses (R4.4), returned bytes are payload[2*(addr-start)+pi(j)] with the word permutation "
         "tied to the LowWordFirst flag (R4.2), and each typed accessor uses the getter width and endianness its type and flags "
         "demand (R4.3). Float value identity is not decided."
-        " R4.5: no access path writes the payload or keeps decoder state."),
+        " R4.5: no access path writes the payload or keeps decoder state."
+        " R4.6: AsRegisters hands the whole payload and the request start address to NewRegisters."),
   note=ENGINE_NOTE + " Registers values are assumed to come from NewRegisters (fields unexported; checked that no other function writes them).",
   ref="DESIGN.md §3 C04"),
  "C05": dict(
@@ -53,7 +57,8 @@ claimed = {
         "argument roles at every hand-over between builder, response and Registers, descriptor = constructor arguments in split, "
         "every field visited and reported exactly once in both extraction loops, widest size kept when fields share an address. "
         "The end-to-end equality with device memory for all field multisets is NOT decided (needs execution)."
-        " Also R5.6 effect-free extraction, R5.7 constructors accept the full range 1..limit, R5.8 follow-up batches keep address and unit id, byte-order-aware accessors for multi-register types."),
+        " Also R5.6 effect-free extraction, R5.7 constructors accept the full range 1..limit, R5.8 follow-up batches keep address and unit id, byte-order-aware accessors for multi-register types."
+        " Also R5.9: Validate accepts every well-formed field."),
   note=ENGINE_NOTE,
   ref="DESIGN.md §3 C05"),
  "C06": dict(
@@ -62,7 +67,8 @@ claimed = {
         "the batch's own values, the grouping key separates server/unit/kind injectively, the kind filter is exact, targets map to "
         "the right constructors, limits equal the specification, and slot end/span arithmetic cannot wrap. Optimality/tightness of "
         "the greedy batching for all field lists is NOT decided."
-        " Also R6.4 (= R5.7) and R6.5 (the eight read-request encoders put unit/start/quantity on the wire as specified)."),
+        " Also R6.4 (= R5.7) and R6.5 (the eight read-request encoders put unit/start/quantity on the wire as specified)."
+        " R6.6 (= R5.1): slot size equals the registers the type occupies."),
   note=ENGINE_NOTE,
   ref="DESIGN.md §3 C06"),
  "C07": dict(
@@ -71,21 +77,24 @@ claimed = {
         "11 formulas are known findings pinned by tests), the read loop accumulates exactly what Read returned, exits to success "
         "only when complete (or EOF), tolerates exactly deadline/EOF errors, returns a copy of what was read (R7.2), and applies "
         "the exception recogniser to everything received in every iteration (R7.3). Scheduling and timing are not decided."
-        " Also R7.4 installed recognisers claim only exception frames, R7.5 positive read timeout from the right configuration field, R7.6 parsers accept and decode every well-formed reply, R7.7 oversize limit = ADU size."),
+        " Also R7.4 installed recognisers claim only exception frames, R7.5 positive read timeout from the right configuration field, R7.6 parsers accept and decode every well-formed reply, R7.7 oversize limit = ADU size."
+        " R7.5 includes guard purity."),
   note=ENGINE_NOTE + " io.Reader contract and errors.Is as an uninterpreted predicate are assumed.",
   ref="DESIGN.md §3 C07"),
  "C08": dict(
   technique="abstract interpretation + CFG rules (select on every cycle, allow-listed calls, error classification by value origin)",
   text=("Decides structural termination and classification clauses on Do/do of both clients (R8.1-R8.5). Bounded wall-clock time "
         "is NOT decided; finite serial reads are assumed."
-        " Also R8.6 usable timeouts/functions and configuration plumbing, R8.7 connection stored only after a successful dial, R8.8 installed reply functions cannot panic, R8.9 no exit leaves the client mutex held."),
+        " Also R8.6 usable timeouts/functions and configuration plumbing, R8.7 connection stored only after a successful dial, R8.8 installed reply functions cannot panic, R8.9 no exit leaves the client mutex held."
+        " Also R8.10 Unwrap returns the cause; guard purity; helper obligations with the Flusher field invariant."),
   note=ENGINE_NOTE,
   ref="DESIGN.md §3 C08"),
  "C09": dict(
   technique="symbolic round trip parse∘encode = id (parser run on the encoder's symbolic buffer) and parser accept-range extraction",
   text=("Decides for all legal requests: the library's own frames are accepted by the per-function parsers (RTU with and without "
         "CRC) with no feasible rejecting or panicking path, decode to equal fields (hence re-encode identically) (R9.3); parser "
-        "limits equal the specification's (R9.1); dispatchers agree (R9.4). FC1/FC2 parser limit 125 is a known finding."),
+        "limits equal the specification's (R9.1); dispatchers agree (R9.4). FC1/FC2 parser limit 125 is a known finding."
+        " R9.5 (= R1.5): header for any struct contents."),
   note=ENGINE_NOTE,
   ref="DESIGN.md §3 C09"),
  "C10": dict(
@@ -93,7 +102,8 @@ claimed = {
   text=("For all inputs: every index, slice, make, encoding/binary access and unchecked type assertion reachable from the 53 "
         "parsing entry points is proven safe against len (not cap), and every return path pairs a non-nil error with a nil "
         "value. This is a sound-by-construction static argument over all byte strings, which no finite test set gives; it "
-        "is not a mechanised proof (the analyser itself is trusted), hence level 'other'."),
+        "is not a mechanised proof (the analyser itself is trusted), hence level 'other'."
+        " Includes bounds obligations for package-level tables and array fields."),
   note=ENGINE_NOTE + " Not covered: panics inside standard-library callees other than encoding/binary accessors; behaviour on 32-bit int.",
   ref="DESIGN.md §3 C10"),
  "C11": dict(
@@ -102,7 +112,8 @@ claimed = {
         "their agreement with the specification layout and with each other, range errors both ways, and the plumbing of the "
         "three wrappers. The write/read-back clause follows from those for every pattern. The byte-order defect of isBitSet is "
         "a known finding (pinned by existing tests)."
-        " Also R11.4 wrappers only forward, R11.5 recogniser and parser of one framing, R11.6 replies are fresh copies."),
+        " Also R11.4 wrappers only forward, R11.5 recogniser and parser of one framing, R11.6 replies are fresh copies."
+        " R11.7 (= R1.1 for FC15 encoders)."),
   note=ENGINE_NOTE,
   ref="DESIGN.md §3 C11"),
  "C12": dict(
@@ -111,7 +122,8 @@ claimed = {
         "functions return reply content only under trailer == CRC16(body) on their own input, and that do()/Do can hand nothing "
         "else carrying reply content to the caller (R12.1-R12.3), for every reply and every corruption. User-supplied functions "
         "are outside the property."
-        " R12.4: the recogniser sees received[0:total]."),
+        " R12.4: the recogniser sees received[0:total]."
+        " Also R12.5 (parser gets do's result unchanged) and R12.6 (= R3.4)."),
   note=ENGINE_NOTE,
   ref="DESIGN.md §3 C12"),
  "C13": dict(
@@ -127,7 +139,8 @@ claimed = {
         "all transport operations under the exclusive lock, Do holds the exclusive lock from entry to its single deferred unlock "
         "with the whole exchange inside, Close tests the transport under the lock (R14.1-R14.4). Fairness and the transport's own "
         "thread safety are not decided."
-        " Also R14.5 replies never alias a reused buffer, R14.6 no exit leaves the mutex held."),
+        " Also R14.5 replies never alias a reused buffer, R14.6 no exit leaves the mutex held."
+        " R14.7: ClientError values are never modified after construction."),
   note=ENGINE_NOTE,
   ref="DESIGN.md §3 C14"),
  "C15": dict(
@@ -136,7 +149,8 @@ claimed = {
         "a complete request is never withheld, every answering path removes exactly the answered bytes (or closes), buffered "
         "requests are all handled in order within one read, the connection loop hands over exactly what was read and writes the "
         "reply before the next read. Exactly-once/in-order over all segmentations as a whole is NOT decided."
-        " Also R15.5 one freshly allocated assembler per accepted connection, R15.6 classifier verdict depends on the header bytes only, accumulator returned on every loop exit."),
+        " Also R15.5 one freshly allocated assembler per accepted connection, R15.6 classifier verdict depends on the header bytes only, accumulator returned on every loop exit."
+        " Also: no read bytes dropped (R15.4), parsed requests do not alias the input (R15.7)."),
   note=ENGINE_NOTE + " bytes.Buffer contract is modelled, not analysed.",
   ref="DESIGN.md §3 C15"),
  "C16": dict(
@@ -155,7 +169,8 @@ claimed = {
         "rejected connections closed, context cancellation closes the listener, shutdown flag ordering, in-flight flag cleared "
         "only after the reply write. Exact accounting under all interleavings, the full in-flight guarantee of Shutdown and "
         "bounded time are NOT decided (schedule exploration)."
-        " Also R17.7 nil listener, R17.8 Shutdown scan flag is monotone and never up for an in-flight connection, R17.9 no exit leaves Server.mu held, R17.10 all replies of a read are handed back and written."),
+        " Also R17.7 nil listener, R17.8 Shutdown scan flag is monotone and never up for an in-flight connection, R17.9 no exit leaves Server.mu held, R17.10 all replies of a read are handed back and written."
+        " R17.11 (= R16.6)."),
   note=ENGINE_NOTE,
   ref="DESIGN.md §3 C17"),
  "C18": dict(
@@ -171,7 +186,8 @@ claimed = {
   text=("Decides that the six hook call sites receive exactly the written slice, the chunk/count/error of the Read of the same "
         "iteration and the frame handed to the parser, are evaluated once per event on every path, and cannot influence the "
         "outcome (R19.1-R19.4). User hook bodies are outside."
-        " Also: hook and parser only on success (R19.3), chunk accounting (R19.5), constructors pass Hooks through (R19.6)."),
+        " Also: hook and parser only on success (R19.3), chunk accounting (R19.5), constructors pass Hooks through (R19.6)."
+        " R19.6 includes guard purity."),
   note=ENGINE_NOTE,
   ref="DESIGN.md §3 C19"),
 }
